@@ -4,6 +4,7 @@ CONSTANTS
   Mode = "three"
   Sample = TRUE
   Runs = 40
+  ExhaustInputs = FALSE
   ViewRoots = FALSE
 SPECIFICATION MacroSpec
 INVARIANT C02Three
